@@ -219,3 +219,27 @@ def rich_set(rng, tag, layout_fn=None, nlang=None, levels=('set', 'lang', 'capti
             caps.append({'start': a, 'end': b, 'nodes': out, 'style': cstyle, 'layout': maybe('caption')})
         spec['langs'].append({'lang': lang, 'layout': maybe('lang'), 'captions': caps})
     return spec
+
+
+def nest_spans(rng, spec, p=0.5):
+    """Put a second, properly nested span inside some of the spans of a set (rich_set makes flat spans only):
+    <i>one <b>two</b> three</i>.  The inner span may carry flags the target format cannot express, or nothing."""
+    n = 0
+    for l in spec['langs']:
+        for c in l['captions']:
+            nodes = c['nodes']
+            starts = [i for i, nd in enumerate(nodes) if nd[0] == 's' and nd[1]]
+            if not starts or rng.random() > p:
+                continue
+            i = rng.choice(starts)
+            j = next((k for k in range(i + 1, len(nodes)) if nodes[k][0] == 's'), None)
+            if j is None or nodes[j][1] or j - i < 2:
+                continue
+            a = rng.randrange(i + 1, j)
+            b = rng.randrange(a + 1, j + 1)
+            inner = rng.choice([{'bold': True}, {'underline': True}, {}, {'italics': True}, {'color': 'red'},
+                                {'bold': True, 'underline': True}])
+            nodes[b:b] = [['s', False, dict(inner)]]
+            nodes[a:a] = [['s', True, dict(inner)]]
+            n += 1
+    return n
